@@ -449,7 +449,7 @@ static int bs_control(struct upipe *upipe, int command, va_list args)
         printf("sink %s register %s type=%d\n", s->name, req_name(r), r->type);
         if (s->reqmode == 2) return UBASE_ERR_UNHANDLED;
         if (s->reqmode == 1) return upipe_throw_provide_request(upipe, r);
-        if (s->nregs < 16) s->regs[s->nregs++] = r;
+        if (s->nregs < 16) { static unsigned long serial; s->regserial[s->nregs] = ++serial; s->regs[s->nregs++] = r; }
         return UBASE_ERR_NONE;
     }
     case UPIPE_UNREGISTER_REQUEST: {
@@ -457,7 +457,7 @@ static int bs_control(struct upipe *upipe, int command, va_list args)
         printf("sink %s unregister %s type=%d\n", s->name, req_name(r), r->type);
         for (int i = 0; i < s->nregs; i++)
             if (s->regs[i] == r) {
-                for (int j = i; j + 1 < s->nregs; j++) s->regs[j] = s->regs[j + 1];
+                for (int j = i; j + 1 < s->nregs; j++) { s->regs[j] = s->regs[j + 1]; s->regserial[j] = s->regserial[j + 1]; }
                 s->nregs--;
                 break;
             }
@@ -698,17 +698,23 @@ bool pd_ext_b(int nt, char **tok)
     if (!strcmp(c, "provall") && nt >= 2) {
         struct vsink *s = find_sink(tok[1]);
         if (s == NULL) { ret(-1); return true; }
-        struct urequest *snap[16];
-        int n = s->nregs;
-        memcpy(snap, s->regs, sizeof(snap));
+        /* every registration present now, and every one that appears while the others are being answered (an
+         * answer may re-plumb upstream: requests are withdrawn and registered again, with new proxies), is
+         * answered once */
+        unsigned long answered[64];
         int done = 0;
-        for (int i = 0; i < n; i++) {
-            /* still registered? (an earlier answer may have unregistered it) */
-            bool still = false;
-            for (int j = 0; j < s->nregs; j++) if (s->regs[j] == snap[i]) still = true;
-            if (!still) continue;
-            c05_provide(snap[i], s->name);
-            done++;
+        for (int pass = 0; pass < 64 && done < 64; pass++) {
+            struct urequest *next = NULL;
+            /* clock requests first, then the others in registration order */
+            for (int clk = 1; clk >= 0 && next == NULL; clk--)
+                for (int j = 0; j < s->nregs && next == NULL; j++) {
+                    if ((s->regs[j]->type == UREQUEST_UCLOCK) != (clk == 1)) continue;
+                    bool seen = false;
+                    for (int i = 0; i < done; i++) if (answered[i] == s->regserial[j]) seen = true;
+                    if (!seen) { next = s->regs[j]; answered[done++] = s->regserial[j]; }
+                }
+            if (next == NULL) break;
+            c05_provide(next, s->name);
         }
         printf("ret 0 %d\n", done);
         return true;
